@@ -455,8 +455,16 @@ def filter_scenario(rng, n_ops=10, tag='wf'):
     open(os.path.join(d, 'src', 'sub', 'b.txt'), 'w').write('b0\n')
     open(os.path.join(d, 'src', 'c.dat'), 'w').write('c0\n')
     open(os.path.join(d, 'any', 'x'), 'w').write('x0\n')
+    open(os.path.join(d, 'src', 'notes.md'), 'w').write('n0\n')
+    os.makedirs(os.path.join(d, 'docs'))
+    open(os.path.join(d, 'docs', 'guide.md'), 'w').write('g0\n')
+    # `filt` lists the directory src twice, under two different extension filters (and docs under the second one only): a
+    # change selected by EITHER resource is relevant
+    res = ['      - paths: [src]\n        extensions: [txt]\n', '      - paths: [src, docs]\n        extensions: [md]\n']
+    if rng.random() < 0.5:
+        res.reverse()
     with open(os.path.join(d, 'zinoma.yml'), 'w') as f:
-        f.write('targets:\n  filt:\n    input:\n      - paths: [src]\n        extensions: [txt]\n'
+        f.write('targets:\n  filt:\n    input:\n' + ''.join(res) +
                 '    build: echo "start filt $$" >> %s\n'
                 '  anyf:\n    input:\n      - paths: [any]\n    build: echo "start anyf $$" >> %s\n' % (trace, trace))
     e = dict(os.environ)
@@ -496,8 +504,9 @@ def filter_scenario(rng, n_ops=10, tag='wf'):
         quiet(1.0)
         seq = 0
         relevant_ops = ['modify', 'create', 'rename_over', 'move_in', 'rename_away', 'delete', 'modify_sub', 'nonutf8_then_modify',
-                        'any_modify', 'any_create_tmpname_not', 'any_nonutf8']
-        irrelevant_ops = ['other_ext', 'tilde', 'swp', 'zinoma_dir', 'outside', 'dat_rename', 'any_tilde', 'any_swp', 'any_zinoma']
+                        'any_modify', 'any_create_tmpname_not', 'any_nonutf8', 'modify_md', 'modify_docs_md', 'modify', 'modify_md']
+        irrelevant_ops = ['other_ext', 'tilde', 'swp', 'zinoma_dir', 'outside', 'dat_rename', 'any_tilde', 'any_swp', 'any_zinoma',
+                          'docs_txt']
         for _ in range(n_ops):
             seq += 1
             op = rng.choice(relevant_ops if rng.random() < 0.55 else irrelevant_ops)
@@ -506,6 +515,10 @@ def filter_scenario(rng, n_ops=10, tag='wf'):
             src = os.path.join(d, 'src')
             if op == 'modify':
                 open(os.path.join(src, 'a.txt'), 'w').write('a%d\n' % seq); target = 'filt'
+            elif op == 'modify_md':
+                open(os.path.join(src, 'notes.md'), 'w').write('n%d\n' % seq); target = 'filt'
+            elif op == 'modify_docs_md':
+                open(os.path.join(d, 'docs', 'guide.md'), 'w').write('g%d\n' % seq); target = 'filt'
             elif op == 'modify_sub':
                 open(os.path.join(src, 'sub', 'b.txt'), 'a').write('b%d\n' % seq); target = 'filt'
             elif op == 'create':
@@ -538,6 +551,9 @@ def filter_scenario(rng, n_ops=10, tag='wf'):
                 open(os.path.join(d, 'any', 'y%d.swpx' % seq), 'w').write('y\n'); target = 'anyf'
             elif op == 'any_nonutf8':
                 open(os.path.join((d + '/any').encode(), b'\xff\xfe%d' % seq), 'w').write('z\n'); target = 'anyf'
+            elif op == 'docs_txt':
+                # docs is listed under the [md] filter only: a .txt there is selected by no resource
+                open(os.path.join(d, 'docs', 'readme.txt'), 'w').write('r%d\n' % seq)
             elif op == 'other_ext':
                 open(os.path.join(src, 'c.dat'), 'w').write('c%d\n' % seq)
             elif op == 'dat_rename':
